@@ -11,6 +11,7 @@ Line-protocol driver for C16 (all ints after the op).
 * `union K <mol>*K`                                    → `ok <mol>` | `err …`
 * `overlap K (nO o*nO)*K <mol>*K`                      → `ok <mol> ; <mol> …`
 * `collide nI i*nI nO o*nO <mol>`                      → `ok <mol>`
+* `stage <template> nM (k v)*nM K <mol>*K nI i*nI nO o*nO` → `ok <mol>` (one match of `_single_stage` before `split()`)
 
 `<template>` = `deleteAtoms isQuery nP (n masked)*nP nRA (n kind z iso charge radical nh h*nh)*nRA
                nRB (n deg (m no o*no)*deg)*nRB`, kind 0 any, 1 query, 2 element, 3 unsupported.
@@ -227,6 +228,25 @@ def handle (line : String) : String :=
             match pMol r2 with
             | none => "badwire"
             | some (m, _) => showMolRes (collisionRemap m ign order)
+      | "stage" =>
+        match pTemplate xs with
+        | none => "badwire"
+        | some (t, r1) =>
+          match pCounted pPair r1 with
+          | none => "badwire"
+          | some (mp, r2) =>
+            match pCounted pMol r2 with
+            | none => "badwire"
+            | some (ms, r3) =>
+              match pCounted pNat r3 with
+              | none => "badwire"
+              | some (ign, r4) =>
+                match pCounted pNat r4 with
+                | none => "badwire"
+                | some (order, _) =>
+                  match templateInit t with
+                  | .error e => showErr e
+                  | .ok td => showMolRes (singleStage t td ms mp ign order)
       | _ => "badop"
 
 def main : IO Unit := ChythonModel.Py.runDriver handle
